@@ -5,6 +5,7 @@ import AL.Model.CallMeta
 import AL.Model.ProjCall
 import AL.Model.ProjLint
 import AL.Model.ActionDecode
+import AL.Model.ConfigDecode
 import Driver.Util
 /-
   `parsewf <numbers> <node>`: the document node as an S-expression
@@ -348,9 +349,25 @@ def envOf : SExp → Option AL.ProjCall.Env
              | none => .missing }
   | _ => none
 
-/-- `lintwfp <numbers> <bad urls> <env> <action env> <node>`: `lintwf` for a file linted inside a project -/
+/-- `(labels, vars | N, ((pattern, label) … that match), ((pattern, label) … on which `path.Match` reports a malformed pattern))` -/
+def configEnvOf : SExp → Option (AL.Rules.LabelCfg × Option (List String))
+  | .list [labels, vars, matched, bad] => do
+    let ls ← (← listOf labels).mapM SExp.str?
+    let vs : Option (List String) ← match vars with
+      | .atom "N" => some none
+      | e => do pure (some (← (← listOf e).mapM SExp.str?))
+    let ms ← (← listOf matched).mapM fun e => match e with
+      | .list [p, l] => do pure ((← p.str?), (← l.str?))
+      | _ => none
+    let bs ← (← listOf bad).mapM fun e => match e with
+      | .list [p, l] => do pure ((← p.str?), (← l.str?))
+      | _ => none
+    pure ({ known := ls, pmatch := fun p l => if bs.any (fun e => e.1 = p && e.2 = l) then none else some (ms.any fun e => e.1 = p && e.2 = l) }, vs)
+  | _ => none
+
+/-- `lintwfp <numbers> <bad urls> <env> <action env> <config env> <node>`: `lintwf` for a file linted inside a project -/
 def handleLintP : List String → String
-  | [nums, urls, env, aenv, node] =>
+  | [nums, urls, env, aenv, cenv, node] =>
     let ns : Option (List Num) := match readSExp nums with
       | some (.atom "E") => some []
       | some (.list l) => l.mapM numOf
@@ -358,33 +375,33 @@ def handleLintP : List String → String
     let bad : Option (List String) := match readSExp urls with
       | some (.list l) => l.mapM SExp.str?
       | _ => none
-    match ns, bad, (readSExp env) >>= envOf, (readSExp aenv) >>= actionEnvOf, (readSExp node) >>= nodeOf with
-    | some ns, some bad, some env, some aenv, some n =>
+    match ns, bad, (readSExp env) >>= envOf, (readSExp aenv) >>= actionEnvOf, (readSExp cenv) >>= configEnvOf, (readSExp node) >>= nodeOf with
+    | some ns, some bad, some env, some aenv, some cenv, some n =>
       let isNum : String → Bool := fun s => match ns.find? (·.value = s) with
         | some x => (match x.float with | .err => false | _ => true)
         | none => false
-      ";".intercalate ((AL.ProjLint.lint (cfgOf ns) isNum (fun u => !bad.contains u) { calls := env, actions := aenv } n).map diagS)
-    | _, _, _, _, _ => "bad-op"
+      ";".intercalate ((AL.ProjLint.lint (cfgOf ns) isNum (fun u => !bad.contains u) { calls := env, actions := aenv, labels := cenv.1, configVars := cenv.2 } n).map diagS)
+    | _, _, _, _, _, _ => "bad-op"
   | _ => "bad-op"
 
-/-- `exprwfp <numbers> <env> <action env> <node>`: `exprwf` for a file linted inside a project -/
+/-- `exprwfp <numbers> <env> <action env> <config env> <node>`: `exprwf` for a file linted inside a project -/
 def handleExprP : List String → String
-  | [nums, env, aenv, node] =>
+  | [nums, env, aenv, cenv, node] =>
     let ns : Option (List Num) := match readSExp nums with
       | some (.atom "E") => some []
       | some (.list l) => l.mapM numOf
       | _ => none
-    match ns, (readSExp env) >>= envOf, (readSExp aenv) >>= actionEnvOf, (readSExp node) >>= nodeOf with
-    | some ns, some env, some aenv, some n =>
+    match ns, (readSExp env) >>= envOf, (readSExp aenv) >>= actionEnvOf, (readSExp cenv) >>= configEnvOf, (readSExp node) >>= nodeOf with
+    | some ns, some env, some aenv, some cenv, some n =>
       let cfg := cfgOf ns
       let isNum : String → Bool := fun s => match ns.find? (·.value = s) with
         | some x => (match x.float with | .err => false | _ => true)
         | none => false
-      let ds := AL.ProjLint.exprRule { calls := env, actions := aenv } cfg.lower isNum (parse cfg n).1
+      let ds := AL.ProjLint.exprRule { calls := env, actions := aenv, labels := cenv.1, configVars := cenv.2 } cfg.lower isNum (parse cfg n).1
       let esc (a : String) : String := (a.replace "\n" "\\n").replace "\r" "\\r"
       let codes := ds.map fun d => d.code ++ "(" ++ ",".intercalate (d.args.map fun a => hexStr (esc a)) ++ ")"
       ";".intercalate (codes.foldr insertStr [])
-    | _, _, _, _ => "bad-op"
+    | _, _, _, _, _ => "bad-op"
   | _ => "bad-op"
 
 end Driver.ParseWfD
@@ -409,6 +426,29 @@ def handleActionMeta : List String → String
         "in" ++ mapS (fun (i : String × Bool) => s!"{hexStr i.1},{b01 i.2}") (m.inputs.map fun e => (e.1, (e.2.1, e.2.2))) ++
         " out" ++ mapS (fun (o : String) => hexStr o) m.outputs
     | none => "bad-op"
+  | _ => "bad-op"
+
+end Driver.ParseWfD
+
+namespace Driver.ParseWfD
+open AL.Yaml AL.Ast AL.PW Driver
+
+/-- `configmeta <bad regexps> <bad globs> <node>`: what `ParseConfig` makes of the document node of actionlint.yaml.
+Answer: `labels=[…] vars=N|[…] paths={glob=[patterns…];…}` (paths sorted by key), `error` or `unsupported` -/
+def handleConfigMeta : List String → String
+  | [badre, badglob, node] =>
+    let br : Option (List String) := (readSExp badre) >>= listOf >>= fun l => l.mapM SExp.str?
+    let bg : Option (List String) := (readSExp badglob) >>= listOf >>= fun l => l.mapM SExp.str?
+    match br, bg, (readSExp node) >>= nodeOf with
+    | some br, some bg, some n =>
+      match AL.ConfigDecode.parseConfig (fun r => !br.contains r) (fun g => !bg.contains g) n with
+      | .error .unsupported => "unsupported"
+      | .error _ => "error"
+      | .ok c =>
+        let strs (l : List String) : String := "[" ++ ",".intercalate (l.map hexStr) ++ "]"
+        s!"labels={strs c.labels} vars={match c.configVars with | none => "N" | some v => strs v} paths=" ++
+          mapS (fun (ps : List String) => strs ps) c.paths
+    | _, _, _ => "bad-op"
   | _ => "bad-op"
 
 end Driver.ParseWfD
